@@ -45,6 +45,8 @@ func TestEngine(t *testing.T) {
 		runRouter(t, seed, n, dir)
 	case "incentives":
 		runIncentives(t, seed, n, dir)
+	case "superfluid":
+		runSuperfluid(t, seed, n, dir)
 	case "cl":
 		runCL(t, seed, n, dir)
 	default:
